@@ -22,7 +22,9 @@ Viol(r) ==
   \cup (IF r.crashed = "NONE" /\ ~r.same THEN {"OutputEqualsDecodableOnly"} ELSE {})
   \cup (IF r.crashed = "NONE" /\ ~r.verbose /\ nbad > 0 /\ r.count # nbad THEN {"CountReported"} ELSE {})
   \cup (IF r.crashed = "NONE" /\ ~r.verbose /\ nbad = 0 /\ r.count # -1 THEN {"CountReported"} ELSE {})
-  \cup (IF r.crashed = "NONE" /\ r.verbose /\ r.warnings # nbad THEN {"EachReported"} ELSE {})
+  \* `stub --diff` builds two stubs and may decode (and report) the stored rows twice
+  \cup (IF r.crashed = "NONE" /\ r.verbose /\ r.warnings # nbad /\ ~(r.cmd = "stub_diff" /\ r.warnings = 2 * nbad)
+        THEN {"EachReported"} ELSE {})
   \cup (IF r.crashed = "NONE" /\ ngood = 0 /\ (~r.no_traces_msg \/ r.stub_present) THEN {"NoTracesSaid"} ELSE {})
   \cup (IF r.crashed = "NONE" /\ ngood > 0 /\ (r.no_traces_msg \/ ~r.stub_present) THEN {"StubProduced"} ELSE {})
 
